@@ -93,6 +93,10 @@ func Parse(in *bytes.Buffer) (defs []*RouteDef, err error) {
 		}
 		defs = append(defs, def)
 	}
+	// a line the scanner cannot hold ends the scan without an error from Scan
+	if err = scanner.Err(); err != nil {
+		return nil, fmt.Errorf("line %d: %s", i+1, err)
+	}
 	return defs, nil
 }
 
